@@ -767,6 +767,12 @@ class Machine(object):
                     elif sig == ("call", 1):
                         goals = (g[1], rest)
                     elif sig == ("findall", 3):
+                        tail = deref(g[3])
+                        while type(tail) is tuple and tail[0] == "." and len(tail) == 3:
+                            tail = deref(tail[2])
+                        if type(tail) is not Var and tail != "[]":
+                            # ISO / SWI-Prolog: type_error(list, ...) -- an error, not a failure
+                            raise Unsupported("findall/3: third argument is not a (partial) list")
                         sols = []
                         for _ in self.solve(g[2], depth + 1):
                             sols.append(rename(g[1], {}))   # findall copies each solution
